@@ -24,7 +24,7 @@ def units(tier, seed):
     nm = len(matrix_histories())
     idx = list(range(nm)) if tier == "thorough" else [i for i in range(nm) if (i + seed) % 3 == 0]
     mat = [{"kind": "matrix", "idx": idx[i:i + 6], "driver": drv} for drv in ("h5", "ih5") for i in range(0, len(idx), 6)]
-    return [{"kind": "pytest"}] + mat + CC.make_units(tier, seed, 700, 16000)
+    return [{"kind": "pytest"}] + mat + CC.make_units(tier, seed, 700, 11000)
 
 
 def run_unit(u, acc):
